@@ -132,6 +132,40 @@ def leaf_for_K(v, k):
     return v, und
 
 
+def alternatives_for_K(v, k):
+    """like leaf_for_K, but a condition that is not on the segment count splits the case: [(substitution, description, leaf)].
+    On the true branch of `name == constant` the equality is substituted (into the reference as well)."""
+    def walk(v, sub, desc):
+        while isinstance(v, PV):
+            t = cond_truth_for_K(v.cond, k)
+            if t is None:
+                e = getattr(v.cond, "eq", None)
+                sub_t = dict(sub)
+                if e is not None:
+                    a, b = e[1], e[2]
+                    for p_, q_ in ((a, b), (b, a)):
+                        ats = list(p_.all_atoms())
+                        if len(ats) == 1 and ats[0].tag == "v" and p_.eq(X.atom(ats[0])) and q_.constval() is not None:
+                            sub_t[ats[0].name] = q_
+                yield from walk(v.hi, sub_t, desc + [v.cond.text])
+                yield from walk(v.lo, sub, desc + [f"not({v.cond.text})"])
+                return
+            v = v.hi if t else v.lo
+        if isinstance(v, tuple) and any(isinstance(e, PV) for e in v):
+            # conditions inside the tuple elements: resolve those on K, keep the rest for the caller
+            out = []; und = []
+            for e in v:
+                l, u = leaf_for_K(e, k); out.append(l); und += u
+            if und:
+                mm = next((l for e in v for _, l in pv_leaves(e) if isinstance(l, Mismatch)), None)
+                if mm is not None:
+                    yield sub, desc, mm; return          # a definite idiom break feeds the undecided condition / the statistic
+                yield sub, desc + [f"undecided: {und[0]}"], Opaque(f"branch condition not on the segment count: {und[0]}"); return
+            v = tuple(out)
+        yield sub, desc, v
+    return list(walk(v, {}, []))
+
+
 def prepare_env(env):
     env.fixed.update({"L": 3.0, "starts.shape0": 3.0, "Q.shape1": 2.0, "Q.shape0": 3.0})
 
@@ -225,26 +259,33 @@ def check_kernel(ctx, KE, fam, mode, backend, outputs=OUT, rule="R3-statistics")
     def decide(oi, name, variants):
         status = HOLDS; detail = ""; lhs = rhs = None
         for k, (p1, val, ref) in [(k, v) for k in range(0, kmax + 1) for v in variants]:
-            leaf, und = leaf_for_K(val, k)
-            if und:
-                status, detail = UNKNOWN, f"branch condition not on the segment count: {und[0]}"; break
-            if is_opaque(leaf):
-                status = VIOLATED if isinstance(leaf, Mismatch) else UNKNOWN
-                detail = leaf.why; break
-            if not isinstance(leaf, tuple) or len(leaf) != 5:
-                status, detail = UNKNOWN, f"kernel does not return a 5-tuple for K={k}: {leaf!r}"[:300]; break
-            got = leaf[oi]
-            want = ref[regime_of(k)][oi]
-            if is_opaque(got):
-                status = VIOLATED if isinstance(got, Mismatch) else UNKNOWN
-                detail = f"K={k}: {got.why}"; lhs = got; break
-            gx = to_x(got)
-            if gx is None:
-                status, detail = UNKNOWN, f"K={k}: non-scalar output {got!r}"[:300]; break
-            stt, why = compare(gx, want, prepare=prepare_env, seed=ctx.seed)
-            if stt != HOLDS:
-                status = stt; detail = f"{name} for K={k} segments" + (f" and a {p1}-column basis" if p1 else "") + " differs from the windowed-DFT definition" + (f" ({why})" if why else "")
-                lhs, rhs = gx, want; break
+            done = False
+            for sub, desc, leaf in alternatives_for_K(val, k):
+                on = (" on the branch [" + " & ".join(desc) + "]") if desc else ""
+                if is_opaque(leaf):
+                    status = VIOLATED if isinstance(leaf, Mismatch) else UNKNOWN
+                    detail = leaf.why + on; done = True; break
+                if not isinstance(leaf, tuple) or len(leaf) != 5:
+                    status, detail = UNKNOWN, f"kernel does not return a 5-tuple for K={k}{on}: {leaf!r}"[:300]; done = True; break
+                got = leaf[oi]
+                want = ref[regime_of(k)][oi]
+                if sub:
+                    try: want = want.subst(sub)
+                    except Unknown: pass
+                if is_opaque(got):
+                    status = VIOLATED if isinstance(got, Mismatch) else UNKNOWN
+                    detail = f"K={k}{on}: {got.why}"; lhs = got; done = True; break
+                gx = to_x(got)
+                if gx is None:
+                    status, detail = UNKNOWN, f"K={k}{on}: non-scalar output {got!r}"[:300]; done = True; break
+                if sub:
+                    try: gx = gx.subst(sub)
+                    except Unknown: pass
+                stt, why = compare(gx, want, prepare=prepare_env, seed=ctx.seed)
+                if stt != HOLDS:
+                    status = stt; detail = f"{name} for K={k} segments" + (f" and a {p1}-column basis" if p1 else "") + on + " differs from the windowed-DFT definition" + (f" ({why})" if why else "")
+                    lhs, rhs = gx, want; done = True; break
+            if done: break
         return status, detail, lhs, rhs
     for name in outputs:
         oi = OUT.index(name)
